@@ -1,3 +1,5 @@
+import FM.Generated.Patterns
+import FM.Model.PatternBaseline
 import FM.Lemmas.Wrap
 import FM.Lemmas.Sentence
 /-
@@ -178,5 +180,10 @@ theorem S_BOUND_partial (c : SCfg) : ∀ (ss : List (List Word)) (first : Bool) 
 theorem S_BOUND_noindent (c : SCfg) (ws : List (Word × Bool)) :
     ∀ l ∈ wrapBySentence c ws, LineOK0 c.W l ∧ l ≠ [] :=
   S_BOUND_partial c _ true [] (by simp)
+
+
+/-- PATTERNS_AS_MODELLED: the regular expressions of the source files this property's models were written against
+(regenerated from /repo's working tree on every run by harness/translate_patterns.py) are the recorded ones. -/
+theorem PATTERNS_AS_MODELLED : FM.Gen.patterns_C05 = FM.Baseline.patterns_C05 := by decide
 
 end FM.C05
